@@ -15,10 +15,16 @@
                                   draws of the sample s that hit those rows;
    - `member_preds O trees row p` p lists the member trees' own predictions for `row` in tree order
                                   (`member_vals` for the regressor);
-   - `oob_members trees masks i`  the trees whose stored mask is `false` at row i, in tree order; *)
-From Coq Require Import List Arith ZArith Bool Reals Lra Lia Floats.
+   - `oob_members trees masks i`  the trees whose stored mask is `false` at row i, in tree order;
+   - `node_vars p mtry draws`     the features find_best_cutoff tries at a node: 0..p-1, shuffled by
+                                  rand 0.8's Fisher-Yates loop `shuffle_model` (driven by `draws`, the
+                                  values gen_index returned) iff mtry < p, then the first mtry entries;
+                                  `fy_draws_ok k draws`: iteration i = k..1 receives a value <= i. *)
+From Coq Require Import List Arith ZArith Bool Reals Lra Lia Floats Permutation.
 From SC Require Import Base.Num C05.Model C05.ProofsGrow C05.ProofsReg C05.ProofsCls C06.Model
-     C06.ProofsBoot C06.ProofsAgg C06.ProofsFit C06.ProofsRange C06.ProofsTie C06.ProofsTotal C06.ProofsInst C06.ProofsOob C06.ProofsE2E.
+     C06.ProofsBoot C06.ProofsAgg C06.ProofsFit C06.ProofsRange C06.ProofsTie C06.ProofsTotal C06.ProofsInst C06.ProofsOob C06.ProofsE2E
+     C06.ProofsMtry C06.ProofsMtryCorr.
+From SC Require C06.Corr.
 Import ListNotations.
 Local Open Scope nat_scope.
 
@@ -259,6 +265,95 @@ Theorem C06_member_trees_majority : forall lg2 crit x y n_trees oracle md msl ms
 Proof. exact cforest_member_majority. Qed.
 
 (* ------------------------------------------------------------------------------------------ *)
+(* mtry and the features tried at a node (C06/ProofsMtry.v, C06/ProofsMtryCorr.v)              *)
+(* ------------------------------------------------------------------------------------------ *)
+(* mtry_default: both forests use `parameters.m.unwrap_or(floor(sqrt(num_attributes)))`.  A user value
+   is passed through unchanged (also 0 and values above p: no clamp in the code); the default is THE
+   integer r with r^2 <= p < (r+1)^2, lies in 1..p for every p >= 1 and is < p as soon as p >= 2 (so the
+   default shuffles at every node unless there is a single feature).  Axiom-free.  (That the code's
+   floating-point `sqrt().floor()` equals this integer is validated per run, not proved.) *)
+Theorem C06_mtry_default : forall p,
+  (forall m, mtry_of (Some m) p = m) /\
+  (mtry_of None p * mtry_of None p <= p < S (mtry_of None p) * S (mtry_of None p)) /\
+  (forall r, r * r <= p < S r * S r -> mtry_of None p = r) /\
+  (1 <= p -> 1 <= mtry_of None p <= p) /\
+  (2 <= p -> mtry_of None p < p).
+Proof. exact mtry_of_spec. Qed.
+
+(* the boolean validators the correspondence evaluates on every recorded feature list are EXACT:
+   nodupb decides NoDup; vars_okb p mtry vs holds iff vs consists of min(mtry,p) distinct column
+   indices, iff vs is the mtry-prefix of some permutation of 0..p-1 *)
+Theorem C06_vars_okb_exact : forall p mtry,
+  (forall l, nodupb l = true <-> NoDup l) /\
+  (forall vs, vars_okb p mtry vs = true <->
+              length vs = Nat.min mtry p /\ (forall j, In j vs -> j < p) /\ NoDup vs) /\
+  (forall vs, vars_okb p mtry vs = true <->
+              exists perm, Permutation (seq 0 p) perm /\ vs = firstn mtry perm).
+Proof.
+  intros p mtry. split; [exact nodupb_NoDup|]. split; [exact (vars_okb_valid p mtry)|].
+  intros vs. rewrite vars_okb_valid. exact (valid_subsample_iff_prefix p mtry vs).
+Qed.
+
+(* shuffle_is_permutation: the transliterated Fisher-Yates loop of rand 0.8 (`for i in (1..len).rev()
+   { swap(i, gen_index(rng, i+1)) }`, `draws` = the values gen_index returned) returns a permutation
+   of its input for EVERY draw sequence on which it returns, for every element type ... *)
+Theorem C06_shuffle_is_permutation : forall A (l : list A) draws l',
+  shuffle_model l draws = Some l' -> Permutation l l'.
+Proof. exact @shuffle_model_perm. Qed.
+(* ... it returns on every sequence gen_index can produce (iteration i receives a value <= i) ... *)
+Theorem C06_shuffle_total : forall A (l : list A) draws,
+  fy_draws_ok (length l - 1) draws -> exists l', shuffle_model l draws = Some l'.
+Proof. exact @shuffle_model_total. Qed.
+(* ... and every permutation of the input is produced by some such sequence *)
+Theorem C06_shuffle_reaches_every_permutation : forall A (l l' : list A),
+  Permutation l l' ->
+  exists draws, fy_draws_ok (length l - 1) draws /\ shuffle_model l draws = Some l'.
+Proof. exact @shuffle_model_surjective. Qed.
+
+(* feature_subsample_valid: whatever the generator returns, the features tried at a node
+   (`node_vars p mtry draws`: 0..p-1, shuffled iff mtry < p, first mtry entries) are min(mtry,p) distinct
+   column indices, pass the boolean check, and are all features in order when mtry >= p; the model
+   returns on every sequence gen_index can produce; and conversely every list accepted by vars_okb is
+   a possible value (so "vars_okb = true" on a recorded list says exactly: a possible subsample). *)
+Theorem C06_feature_subsample_valid : forall p mtry,
+  (forall draws vs, node_vars p mtry draws = Some vs ->
+     length vs = Nat.min mtry p /\ (forall j, In j vs -> j < p) /\ NoDup vs /\ vars_okb p mtry vs = true) /\
+  (forall draws, p <= mtry -> node_vars p mtry draws = Some (seq 0 p)) /\
+  (forall draws, fy_draws_ok (p - 1) draws -> exists vs, node_vars p mtry draws = Some vs) /\
+  (forall vs, mtry < p -> vars_okb p mtry vs = true ->
+     exists draws, fy_draws_ok (p - 1) draws /\ node_vars p mtry draws = Some vs).
+Proof.
+  intros p mtry. split.
+  - intros draws vs H. destruct (node_vars_valid p mtry draws vs H) as ((A & B & C) & D & _). auto.
+  - split; [intros draws; exact (node_vars_all p mtry draws)|].
+    split; [intros draws; exact (node_vars_total p mtry draws)|exact (vars_okb_reachable p mtry)].
+Qed.
+
+(* what a passed correspondence case has established about the recorded oracle (Corr.oracle_okb is a
+   conjunct of every whole-forest correspondence term): every tree consumed exactly n draws, and every
+   feature list the model's member trees are given is all of 0..p-1 (node ids without a record) or
+   min(mtry,p) distinct column indices, i.e. the mtry-prefix of a permutation of 0..p-1 *)
+Theorem C06_recorded_features_valid : forall n p mtry (l : SC.C06.Corr.oracle_lit),
+  SC.C06.Corr.oracle_okb n p mtry l = true ->
+  forall t, t < length l ->
+    length (fst (SC.C06.Corr.oracle_of p l t)) = n /\
+    forall id, let vs := snd (SC.C06.Corr.oracle_of p l t) id in
+      vs = seq 0 p \/
+      ((length vs = Nat.min mtry p /\ (forall j, In j vs -> j < p) /\ NoDup vs) /\
+       exists perm, Permutation (seq 0 p) perm /\ vs = firstn mtry perm).
+Proof. exact oracle_okb_sound. Qed.
+
+(* oob_members_spec: for masks that are the supports of bootstrap samples ss (as in every fitted
+   forest, C06_oob_uses_exactly_unsampled_trees_classifier / _regressor), the out-of-bag sub-forest of row i is exactly the
+   trees, selected by position, whose sample has count 0 at row i; C06_oob_classifier /
+   C06_oob_regressor say that the out-of-bag prediction is the forest prediction of that sub-forest *)
+Theorem C06_oob_members_spec : forall Tr (trees : list Tr) (ss : list (list nat)) i,
+  length ss = length trees -> Forall (fun s => i < length s) ss ->
+  oob_members trees (map mask_of ss) i =
+  map fst (filter (fun ts => nth i (snd ts) 0 =? 0) (combine trees ss)).
+Proof. exact @oob_members_by_count. Qed.
+
+(* ------------------------------------------------------------------------------------------ *)
 (* extensions stated, not proved (covered by correspondence and search only)                   *)
 (* ------------------------------------------------------------------------------------------ *)
 (* the range clause for binary64: float means can leave the range by rounding only; stated with the
@@ -324,3 +419,27 @@ Example C06_regressor_instance :
     option_map (fun o => skipn 3 o) (rf_predict_oob FOps f [[1];[2];[6];[3];[7];[8];[4]]%float) =
       Some [2; 10; 10; 0x1.5555555555555p+1]%float.
 Proof. eexists. split; [vm_compute; reflexivity|]. repeat split; vm_compute; reflexivity. Qed.
+
+Example C06_mtry_instance :
+  mtry_of None 1 = 1 /\ mtry_of None 10 = 3 /\ mtry_of None 16 = 4 /\ mtry_of (Some 7) 10 = 7.
+Proof. repeat split. Qed.
+
+(* five features, mtry = 2, draws 2 0 1 1 for the iterations i = 4 3 2 1 *)
+Example C06_shuffle_instance :
+  fy_draws_ok 4 [2; 0; 1; 1] /\
+  shuffle_model [0; 1; 2; 3; 4] [2; 0; 1; 1] = Some [3; 4; 1; 0; 2] /\
+  node_vars 5 2 [2; 0; 1; 1] = Some [3; 4] /\ vars_okb 5 2 [3; 4] = true /\
+  node_vars 5 5 [] = Some [0; 1; 2; 3; 4] /\
+  vars_okb 5 2 [3; 3] = false /\ vars_okb 5 2 [3; 5] = false /\ vars_okb 5 2 [3] = false /\
+  shuffle_model [0; 1; 2] [3; 0] = None.
+Proof. repeat split; cbn; try lia; vm_compute; reflexivity. Qed.
+
+Example C06_recorded_features_instance :
+  SC.C06.Corr.oracle_okb 3 4 2 [([0; 2; 2]%N, [(0%N, [3; 1]%N); (2%N, [0; 3]%N)])] = true /\
+  snd (SC.C06.Corr.oracle_of 4 [([0; 2; 2]%N, [(0%N, [3; 1]%N); (2%N, [0; 3]%N)])] 0) 2 = [0; 3].
+Proof. split; vm_compute; reflexivity. Qed.
+
+Example C06_oob_members_instance :
+  oob_members [10; 20; 30] (map mask_of [[1; 0]; [0; 2]; [0; 1]]) 0 = [20; 30] /\
+  map fst (filter (fun ts => nth 0 (snd ts) 0 =? 0) (combine [10; 20; 30] [[1; 0]; [0; 2]; [0; 1]])) = [20; 30].
+Proof. split; vm_compute; reflexivity. Qed.
